@@ -2,7 +2,7 @@
 
 use crate::drive::pipeline::Sources;
 use crate::gen::ast::*;
-use crate::gen::print::{print_program, PrintedModule};
+use crate::gen::print::{print_program, print_program_trivia, PrintedModule};
 use crate::gen::wt::{generate, Cfg};
 use crate::reference::eval::{expected, Expected, RefErr};
 use crate::util::{Rng, Stats};
@@ -74,6 +74,13 @@ pub fn gen_wt_case(seed: u64, salt: &str, idx: u64, cfg: &Cfg, st: &mut Stats) -
     }
     st.inc("gen_gave_up");
     None
+}
+
+/// Re-prints a case with random blanks, newlines (LF and CRLF) and comments between tokens; the span table follows.
+pub fn with_trivia(c: &mut WtCase, seed: u64, salt: &str, idx: u64) {
+    let mut rng = Rng::for_case(seed, &format!("{salt}-trivia"), idx);
+    c.printed = print_program_trivia(&c.prog, &mut rng);
+    c.sources = sources_of(&c.printed);
 }
 
 /// Feature census of a program (for coverage histograms and the non-triviality rule).
